@@ -153,11 +153,12 @@ CHECKS["C07"] = dict(
 CHECKS["C08"] = dict(
     text="Real bbox code with all control points symbolic: Move/Line/Close exact; QuadraticBezier.bbox contains B(t) for ALL t in [0,1] and each side is attained at an "
          "end point or the stationary point; CubicBezier._real_minmax contains B(t) for all t per branch (nlsat; branches that stay unknown within the budget are "
-         "listed as inconclusive); zero-sweep Arc box ordered and containing the chord; Path/Subpath (transformed and not)/Group/Use boxes contain every point of "
+         "listed as inconclusive); zero-sweep Arc box ordered and containing the chord; Arc.bbox for non-zero sweep on seeded paths (the symbolic path of each of 36 concrete "
+         "arcs, inputs symbolic within the arc's band: candidate angles are stationary points and no stationary angle atan + k pi (k = -5..5) inside the sweep is skipped); Path/Subpath (transformed and not)/Group/Use boxes contain every point of "
          "every member, stay within the defining-point hull, equal the union of member boxes, and are grown by half the implicit (sqrt|det| scaled) or plain stroke "
          "width exactly when a stroke is painted.",
     ref="DESIGN.md 4/C08",
-    note=NOTE_COMMON + "Outside: Arc.bbox for non-zero sweep (atan/tan candidate angles, theta/delta), tightness of cubic boxes.")
+    note=NOTE_COMMON + "Arc.get_start_t is a contract stub in the arc-box harnesses. Outside: Arc.bbox beyond the seeded paths/bands, the analysis step from stationary points to containment, tightness of cubic boxes.")
 
 CHECKS["C05"] = dict(
     text="Real Arc.__init__ -> _svg_parameterize (also through Path('M.. A..') and relative 'a') with start, end, radii and rotation symbolic, all four flag combinations and "
